@@ -2684,3 +2684,17 @@ def int_from_str_radix(E, st, frame, b, t, c, args):
     erty = ty['variants'][1]['fields'][0].get('ty')
     site = E.site(frame, b, 'fsr')
     return ('E', T('e', site), ((0, (E.expand(('T', okty, site)),)), (1, (('T', erty, None),))))
+
+
+@model(['from_elem'], pred=lambda c: (c.get('rdid') or c.get('did') or '').startswith('alloc::vec::from_elem'))
+def vec_from_elem(E, st, frame, b, t, c, args):
+    """vec![elem; n]: a vector of exactly n copies of elem"""
+    usz = E.types.by_name('usize')
+    n = E.scalar(st, args[1], usz)
+    if n[0] != 'I':
+        n = mk_int(0, U63)
+    el = E.expand(args[0])
+    items = None
+    if n[1] == n[2] and 0 < n[1] <= 40:
+        items = tuple(el for _ in range(n[1]))
+    return ('S', n, el, items)
